@@ -45,8 +45,14 @@ def gen_history(rng, length, readonly_safe=False, valkeys=None, funcs=3):
     """Random op history; ops are JSON lists."""
     ops = []
     vk = valkeys or VALKEYS
+    # most operations of a history aim at one "hot" call, so that multi-step interactions
+    # (write metadata -> forget -> memoize again -> read metadata) actually occur
+    hot = (rng.randrange(funcs), rng.randrange(NARGS))
+    hot_p = rng.choice([0.0, 0.4, 0.7])
     for _ in range(length):
         f, a = rng.randrange(funcs), rng.randrange(NARGS)
+        if rng.random() < hot_p:
+            f, a = hot
         r = rng.random()
         if r < 0.30:
             ops.append(["memoize", f, a, rng.choice(vk), rng.choice(OVERRIDES)])
@@ -67,9 +73,9 @@ def gen_history(rng, length, readonly_safe=False, valkeys=None, funcs=3):
         elif r < 0.88:
             ops.append(["list_mems", f])
         elif r < 0.94:
-            ops.append(["wmeta", f, a, rng.choice(META_KEYS), "m%d" % rng.randrange(4)])
+            ops.append(["wmeta", f, a, META_KEYS[0] if rng.random() < 0.7 else META_KEYS[1], "m%d" % rng.randrange(4)])
         else:
-            ops.append(["rmeta", f, a, rng.choice(META_KEYS)])
+            ops.append(["rmeta", f, a, META_KEYS[0] if rng.random() < 0.7 else META_KEYS[1]])
     return ops
 
 
